@@ -281,7 +281,18 @@ def c03(tier, seed):
 
 
 def c04(tier, seed):
-    return c03_specs(tier, seed, [1, 2, 3, 4, 5], "c04")
+    S = c03_specs(tier, seed, [1, 2, 3, 4, 5], "c04")
+    # single-bit flips of the payload octet of every segment of the encoded proof
+    th = tier == "thorough"
+    for (L, M, H, PHs) in [(1, 0, 2, 0), (2, 3, 0, 2)] + ([(1, 1, 0, 0), (2, 1, 1, 1)] if th else []):
+        U = L - bin(M).count("1")
+        for seg in range(0, 7 + U):
+            for sk_, cs in (suites(tier, seed, "c04f") if th else one_suite(tier, seed, "c04f%d%d%d" % (L, M, seg))):
+                S.append(Spec("c04_flip_%s_L%d_d%d_seg%d" % (sk_, L, M, seg),
+                              "p03::proof_flow::<%s, %d, %d, 0, %d, %d, %d, %d>()" % (cs, L, M, H, PHs, 100 + seg, L % 3), 100, "G", "A",
+                              shape=dict(contract="proof_gen -> proof_verify", suite=sk_, L=L, disclosed_mask=M, index_presentation=0, header_shape=H, ph_shape=PHs, edit="bit flip in segment %d" % seg),
+                              replay="alg", features="fixedrand"))
+    return S
 
 
 def c05_specs(tier, seed, edits, tag):
